@@ -79,9 +79,12 @@ def _mut_work(items):
                     nontriv += 1
                     if core.parse_outcome(mt)[0] == "ok":
                         fails.append((f"accepted-mutant:{kind[:4]}:{t}", {"text": mt, "origin": text}, "bracket mutant accepted"))
-        # (d) non-token injections at every gap
+        # (d) non-token injections at every gap (the directive look-alikes only
+        # in programs of at most 10 tokens: their effect does not depend on what
+        # surrounds the line)
+        junks = NONTOKENS if len(toks) <= 10 else NONTOKENS[:10]
         for i in range(len(toks) + 1):
-            for junk in NONTOKENS:
+            for junk in junks:
                 mt = " ".join(toks[:i] + [junk] + toks[i:]) + " "
                 n += 1
                 o = core.parse_outcome(mt)
